@@ -289,8 +289,17 @@ func genC10(h *H) {
 				reps = 20
 			}
 			for k := 0; k < reps; k++ {
-				h.Run(Case{Op: "bx_encode", A: map[string]string{"enc": e.name, "data": hx(h.rng.Bytes(l))}})
+				h.Run(Case{Op: "bx_encode", A: map[string]string{"enc": e.name, "data": hx(h.content(l))}})
 			}
+		}
+		// a full block without zero bytes followed by a block with z leading zero bytes, every z
+		for z := 1; z <= e.ibl; z++ {
+			d := bytes.Repeat([]byte{0xa7}, 2*e.ibl)
+			copy(d[e.ibl:], make([]byte, z))
+			h.tag("leading-zero-block")
+			d = append(d, h.rng.Bytes(h.rng.Intn(5))...)
+			h.Run(Case{Op: "bx_encode", A: map[string]string{"enc": e.name, "data": hx(d)}})
+			h.Run(Case{Op: "bx_decode", A: map[string]string{"enc": e.name, "s": hx([]byte(e.enc.EncodeToString(d)))}})
 		}
 		// all character strings up to length 2 (3 in thorough) over alphabet + 2 foreign chars (+ skip chars if any)
 		chars := []byte(e.alphabet)
